@@ -451,7 +451,15 @@ class SyncInterpreter(BaseInterpreter[TContext, TEvent]):
                 for plugin in self._plugins:
                     plugin.on_event_received(self, current_event)
 
-                self._process_event(current_event)
+                try:
+                    self._process_event(current_event)
+                except Exception:
+                    # 🧩 One region's transition aborted, but what the other
+                    #    regions already committed is part of this macrostep
+                    #    and still has to settle: without this the machine
+                    #    rested in a transient state until the NEXT event.
+                    self._process_transient_transitions()
+                    raise
                 self._process_transient_transitions()
         except BaseException:
             # 📝 Only the failing path resets the flag here: on the normal
